@@ -2268,18 +2268,25 @@ theorem Inv.stepMut {σ : State} {T : List V} {l : Loc} (s : Step) (inv : Inv σ
 
 
 /-- a whole mutable path: the invariant holds whether or not a step is refused -/
-theorem Inv.resolveMut {T : List V} : ∀ (steps : List Step) (σ : State) (l : Loc), Inv σ T → ValidLoc σ l →
-    ∃ σ' r, Var.resolveMut true σ l steps = (σ', r) ∧ Inv σ' T ∧ σ'.slots.length = σ.slots.length ∧
-      ((∃ e, r = .error e ∧ (e = .sharedGrowth ∨ e = .badarg)) ∨ (∃ t, r = .ok t ∧ ValidLoc σ' t))
+theorem Inv.resolveMut {T : List V} (src : Option Loc) : ∀ (steps : List Step) (σ : State) (l : Loc), Inv σ T → ValidLoc σ l →
+    ∃ σ' r, Var.resolveMut true src σ l steps = (σ', r) ∧ Inv σ' T ∧ σ'.slots.length = σ.slots.length ∧
+      ((∃ e, r = .error e ∧ (e = .sharedGrowth ∨ e = .badarg ∨ e = .srcMoved)) ∨ (∃ t, r = .ok t ∧ ValidLoc σ' t))
   | [], σ, l, inv, hl => ⟨σ, .ok l, rfl, inv, rfl, Or.inr ⟨l, rfl, hl⟩⟩
   | s :: rest, σ, l, inv, hl => by
     simp only [Var.resolveMut]
-    rcases inv.stepMut s hl with ⟨e, h1, he⟩ | ⟨σ1, t1, h1, inv1, hs1, hl1⟩
-    · simp only [h1]
-      exact ⟨σ, .error e, rfl, inv, rfl, Or.inl ⟨e, rfl, he⟩⟩
-    · simp only [h1]
-      obtain ⟨σ', r, h2, inv', hs', hr'⟩ := Inv.resolveMut rest σ1 t1 inv1 hl1
-      exact ⟨σ', r, h2, inv', by rw [hs', hs1], hr'⟩
+    by_cases hinv : invalidates σ l s src = true
+    · simp only [hinv, Bool.true_and, if_true]
+      exact ⟨σ, .error .srcMoved, rfl, inv, rfl, Or.inl ⟨_, rfl, Or.inr (Or.inr rfl)⟩⟩
+    · simp only [hinv, Bool.and_false, Bool.false_eq_true, if_false]
+      rcases inv.stepMut s hl with ⟨e, h1, he⟩ | ⟨σ1, t1, h1, inv1, hs1, hl1⟩
+      · simp only [h1]
+        refine ⟨σ, .error e, rfl, inv, rfl, Or.inl ⟨e, rfl, ?_⟩⟩
+        rcases he with he | he
+        · exact Or.inl he
+        · exact Or.inr (Or.inl he)
+      · simp only [h1]
+        obtain ⟨σ', r, h2, inv', hs', hr'⟩ := Inv.resolveMut src rest σ1 t1 inv1 hl1
+        exact ⟨σ', r, h2, inv', by rw [hs', hs1], hr'⟩
 
 /-! ## const paths -/
 
@@ -3316,31 +3323,68 @@ theorem Inv.cycleGuard {σ : State} {T : List V} (inv : Inv σ T) (t : Loc) {src
 
 /-- the errors with which a statement may be refused -/
 def Refusal (e : Err) : Prop :=
-  e = .sharedGrowth ∨ e = .cyclic ∨ e = .nopath ∨ e = .badarg ∨ e = .fuel
+  e = .sharedGrowth ∨ e = .cyclic ∨ e = .nopath ∨ e = .badarg ∨ e = .fuel ∨ e = .srcMoved
 
 /-- outcome of a statement body on a state satisfying the invariant -/
 def BodyOK (σ : State) (r : Except Err State) : Prop :=
   (∃ e, r = .error e ∧ Refusal e) ∨ ∃ σ', r = .ok σ' ∧ Inv σ' [] ∧ σ'.slots.length = σ.slots.length
 
-theorem Inv.opSetV {σ : State} {t : Loc} (q : Path) (inv : Inv σ []) (hl : ValidLoc σ t) : BodyOK σ (Var.opSetV σ t q) := by
+theorem readLoc_held {σ : State} {l : Loc} {v : V} (hr : readLoc σ l = .ok v) : v ∈ σ.slots ∨ v ∈ hvals σ.heap := by
+  cases l with
+  | slot k =>
+    simp only [readLoc] at hr
+    cases hk : σ.slots[k]? with
+    | none => simp [hk] at hr
+    | some x => simp only [hk, Except.ok.injEq] at hr; subst hr; exact Or.inl (List.mem_of_getElem? hk)
+  | item P i =>
+    simp only [readLoc] at hr
+    cases hb : getB σ.heap P with
+    | error e => simp [hb] at hr
+    | ok b =>
+      simp only [hb] at hr
+      cases hi : b.items[i]? with
+      | none => simp [hi] at hr
+      | some kv =>
+        simp only [hi, Except.ok.injEq] at hr; subst hr
+        exact Or.inr (mem_hvals_of_getB hb (List.mem_map_of_mem (List.mem_of_getElem? hi)))
+
+theorem srcMovedR : Refusal .srcMoved := Or.inr (Or.inr (Or.inr (Or.inr (Or.inr rfl))))
+
+/-- reading through the source reference: a value held by the state (or the refusal that is never taken) -/
+theorem Inv.srcVal {σ : State} {T : List V} (sl : Option Loc) :
+    (Var.srcVal σ sl = .error .srcMoved) ∨ ∃ src, Var.srcVal σ sl = .ok src ∧ Held σ T src := by
+  unfold Var.srcVal
+  cases sl with
+  | none => exact Or.inr ⟨V.none, rfl, Or.inl rfl⟩
+  | some l =>
+    simp only []
+    cases hr : readLoc σ l with
+    | error e => exact Or.inl rfl
+    | ok v =>
+      refine Or.inr ⟨v, rfl, Or.inr ?_⟩
+      rcases readLoc_held hr with h | h
+      · exact Or.inl (List.mem_append_left _ h)
+      · exact Or.inr h
+
+theorem Inv.opSetV {σ : State} {t : Loc} (sl : Option Loc) (inv : Inv σ []) (hl : ValidLoc σ t) : BodyOK σ (Var.opSetV σ t sl) := by
   unfold Var.opSetV
-  rcases inv.cget q with ⟨e, h1, he⟩ | ⟨src, h1, hsrc⟩
-  · left; exact ⟨e, by rw [h1], by subst he; exact Or.inr (Or.inr (Or.inl rfl))⟩
+  rcases Inv.srcVal (σ := σ) (T := []) sl with h1 | ⟨src, h1, hsrc⟩
+  · left; exact ⟨_, by rw [h1], srcMovedR⟩
   · rw [h1]
     have hlive := Held.live inv hsrc
     rcases inv.cycleGuard t hlive with ⟨e, h2, he⟩ | ⟨h2, hne⟩
     · left; refine ⟨e, by simp only [h2], ?_⟩
       rcases he with he | he <;> subst he
-      · exact Or.inr (Or.inr (Or.inr (Or.inr rfl)))
+      · exact Or.inr (Or.inr (Or.inr (Or.inr (Or.inl rfl))))
       · exact Or.inr (Or.inl rfl)
     · simp only [h2]
       obtain ⟨σ', ha, inv', hs⟩ := inv.assignV hl hlive hne
       right; exact ⟨σ', ha, inv', hs⟩
 
 
-theorem Inv.appGuard {σ : State} {t : Loc} (q : Path) {src v : V} (inv : Inv σ []) (hs : LiveV σ.heap src) :
-    (∃ e, Var.appGuard σ t q src v = .error e ∧ Refusal e) ∨
-    (Var.appGuard σ t q src v = .ok () ∧
+theorem Inv.appGuard {σ : State} {t : Loc} (sl : Option Loc) {src v : V} (inv : Inv σ []) (hs : LiveV σ.heap src) :
+    (∃ e, Var.appGuard σ t sl src v = .error e ∧ Refusal e) ∨
+    (Var.appGuard σ t sl src v = .ok () ∧
       (∀ id c, v = .arr id → handleOf src = some c → ¬ Reach σ.heap c id) ∧
       (v = .none → ∀ P c, parentOf t = some P → handleOf src = some c → ¬ Reach σ.heap c P)) := by
   unfold Var.appGuard
@@ -3357,21 +3401,18 @@ theorem Inv.appGuard {σ : State} {t : Loc} (q : Path) {src v : V} (inv : Inv σ
         refine ⟨rfl, ⟨(fun id' c hid' hc => ?_), (fun h0 => nomatch h0)⟩⟩
         cases hid'
         exact reaches_false_not_reach _ src c hb hc
-    · rw [hb]; left; exact ⟨_, rfl, Or.inr (Or.inr (Or.inr (Or.inr rfl)))⟩
+    · rw [hb]; left; exact ⟨_, rfl, Or.inr (Or.inr (Or.inr (Or.inr (Or.inl rfl))))⟩
   | none =>
     simp only []
     rcases inv.cycleGuard t hs with ⟨e, h2, he⟩ | ⟨h2, hcg⟩
     · left; refine ⟨e, by simp only [h2], ?_⟩
       rcases he with he | he <;> subst he
-      · exact Or.inr (Or.inr (Or.inr (Or.inr rfl)))
+      · exact Or.inr (Or.inr (Or.inr (Or.inr (Or.inl rfl))))
       · exact Or.inr (Or.inl rfl)
     · simp only [h2]
-      rcases inv.cloc q with ⟨e, h3, he⟩ | ⟨r, h3⟩
-      · left; exact ⟨e, by simp only [h3], by subst he; exact Or.inr (Or.inr (Or.inl rfl))⟩
-      · simp only [h3]
-        by_cases hsl : r = some t
-        · left; simp only [hsl, if_true]; exact ⟨_, rfl, Or.inr (Or.inl rfl)⟩
-        · right; exact ⟨by simp only [hsl, if_false], ⟨(fun id c h => nomatch h), (fun _ => hcg)⟩⟩
+      by_cases hsl : sl = some t
+      · left; simp only [hsl, if_true]; exact ⟨_, rfl, Or.inr (Or.inl rfl)⟩
+      · right; exact ⟨by simp only [hsl, if_false], ⟨(fun id c h => nomatch h), (fun _ => hcg)⟩⟩
   | null => right; exact ⟨rfl, ⟨(fun id c h => nomatch h), (fun h => nomatch h)⟩⟩
   | bool _ => right; exact ⟨rfl, ⟨(fun id c h => nomatch h), (fun h => nomatch h)⟩⟩
   | int _ => right; exact ⟨rfl, ⟨(fun id c h => nomatch h), (fun h => nomatch h)⟩⟩
@@ -3381,15 +3422,15 @@ theorem Inv.appGuard {σ : State} {t : Loc} (q : Path) {src v : V} (inv : Inv σ
   | str _ => right; exact ⟨rfl, ⟨(fun id c h => nomatch h), (fun h => nomatch h)⟩⟩
   | obj _ => right; exact ⟨rfl, ⟨(fun id c h => nomatch h), (fun h => nomatch h)⟩⟩
 
-theorem Inv.opApp {σ : State} {t : Loc} (q : Path) (inv : Inv σ []) (hl : ValidLoc σ t) : BodyOK σ (Var.opApp true σ t q) := by
+theorem Inv.opApp {σ : State} {t : Loc} (sl : Option Loc) (inv : Inv σ []) (hl : ValidLoc σ t) : BodyOK σ (Var.opApp true σ t sl) := by
   unfold Var.opApp
-  rcases inv.cget q with ⟨e, h1, he⟩ | ⟨src, h1, hsrc⟩
-  · left; exact ⟨e, by rw [h1], by subst he; exact Or.inr (Or.inr (Or.inl rfl))⟩
+  rcases Inv.srcVal (σ := σ) (T := []) sl with h1 | ⟨src, h1, hsrc⟩
+  · left; exact ⟨_, by rw [h1], srcMovedR⟩
   · rw [h1]
     have hlive := Held.live inv hsrc
     obtain ⟨v, hr, _⟩ := readLoc_valid hl []
     simp only [hr]
-    rcases inv.appGuard (t := t) q (v := v) hlive with ⟨e, h2, he⟩ | ⟨h2, hne, hneN⟩
+    rcases inv.appGuard (t := t) sl (v := v) hlive with ⟨e, h2, he⟩ | ⟨h2, hne, hneN⟩
     · left; exact ⟨e, by simp only [h2], he⟩
     · simp only [h2]
       rcases inv.appendAt hl hlive
@@ -3411,7 +3452,7 @@ theorem Inv.anyReaches_benign {σ : State} {T : List V} (inv : Inv σ T) (t : Na
 
 theorem Inv.extGuard {σ : State} {t : Loc} {src v : V} (inv : Inv σ []) (hs : LiveV σ.heap src) (hv : LiveV σ.heap v) :
     (∃ e, Var.extGuard true σ t src v = .error e ∧ Refusal e) ∨ Var.extGuard true σ t src v = .ok () := by
-  have fuelR : Refusal .fuel := Or.inr (Or.inr (Or.inr (Or.inr rfl)))
+  have fuelR : Refusal .fuel := Or.inr (Or.inr (Or.inr (Or.inr (Or.inl rfl))))
   have cycR : Refusal .cyclic := Or.inr (Or.inl rfl)
   unfold Var.extGuard
   by_cases hobj : ∃ sid, src = V.obj sid
@@ -3457,11 +3498,11 @@ theorem Inv.extGuard {σ : State} {t : Loc} {src v : V} (inv : Inv σ []) (hs : 
   · right
     cases v <;> cases src <;> first | rfl | (exfalso; exact hobj ⟨_, rfl⟩)
 
-theorem Inv.opExtend {σ : State} {t : Loc} (q : Path) (inv : Inv σ []) (hl : ValidLoc σ t) :
-    BodyOK σ (Var.opExtend true σ t q) := by
+theorem Inv.opExtend {σ : State} {t : Loc} (sl : Option Loc) (inv : Inv σ []) (hl : ValidLoc σ t) :
+    BodyOK σ (Var.opExtend true σ t sl) := by
   unfold Var.opExtend
-  rcases inv.cget q with ⟨e, h1, he⟩ | ⟨src, h1, hsrc⟩
-  · left; exact ⟨e, by rw [h1], by subst he; exact Or.inr (Or.inr (Or.inl rfl))⟩
+  rcases Inv.srcVal (σ := σ) (T := []) sl with h1 | ⟨src, h1, hsrc⟩
+  · left; exact ⟨_, by rw [h1], srcMovedR⟩
   · rw [h1]
     have hlive := Held.live inv hsrc
     obtain ⟨v, hr, hheld⟩ := readLoc_valid hl []
@@ -3475,7 +3516,7 @@ theorem Inv.opExtend {σ : State} {t : Loc} (q : Path) (inv : Inv σ []) (hl : V
         · exact Or.inl rfl
         · exact Or.inr (Or.inr (Or.inr (Or.inl rfl)))
         · exact Or.inr (Or.inl rfl)
-        · exact Or.inr (Or.inr (Or.inr (Or.inr rfl)))
+        · exact Or.inr (Or.inr (Or.inr (Or.inr (Or.inl rfl))))
       · right; exact ⟨σ', h3, inv', hs⟩
 
 theorem Lit.toV_scalar (l : Lit) : handleOf l.toV = none := by
@@ -3487,16 +3528,17 @@ theorem Lit.toV_scalar (l : Lit) : handleOf l.toV = none := by
   | flt d => rfl
   | bool b => rfl
   | str s => simp only [Lit.toV, mkString]; split <;> rfl
+  | nlong i => simp only [Lit.toV, mkNativeLong]; split <;> rfl
+  | nulong u => simp only [Lit.toV, mkNativeULong]; split <;> rfl
 
 
 theorem BodyOK.of_ok {σ : State} {r : Except Err State}
     (h : ∃ σ', r = .ok σ' ∧ Inv σ' [] ∧ σ'.slots.length = σ.slots.length) : BodyOK σ r := Or.inr h
 
-theorem resolveMut_nil (σ : State) (l : Loc) : Var.resolveMut true σ l [] = (σ, .ok l) := rfl
 
 /-- the body of a statement whose target is resolved -/
-theorem Inv.opBody {σ : State} {t : Loc} (op : Op) (inv : Inv σ []) (hl : ValidLoc σ t) :
-    BodyOK σ (Var.opBody true σ t op) := by
+theorem Inv.opBody {σ : State} {t : Loc} (sl : Option Loc) (op : Op) (inv : Inv σ []) (hl : ValidLoc σ t) :
+    BodyOK σ (Var.opBody true σ t sl op) := by
   have sg : Refusal .sharedGrowth := Or.inl rfl
   have ba : Refusal .badarg := Or.inr (Or.inr (Or.inr (Or.inl rfl)))
   cases op with
@@ -3509,12 +3551,14 @@ theorem Inv.opBody {σ : State} {t : Loc} (op : Op) (inv : Inv σ []) (hl : Vali
     | dbl d => exact Or.inr (inv.assignScalar hl rfl)
     | flt d => exact Or.inr (inv.assignScalar hl rfl)
     | bool b => exact Or.inr (inv.assignScalar hl rfl)
+    | nlong i => exact Or.inr (inv.assignScalar hl (Lit.toV_scalar (.nlong i)))
+    | nulong u => exact Or.inr (inv.assignScalar hl (Lit.toV_scalar (.nulong u)))
   | setType p ty =>
     rcases inv.assignType (ty := ty) hl with h | h
     · exact Or.inl ⟨_, h, ba⟩
     · exact Or.inr h
-  | setV p q => exact inv.opSetV q hl
-  | app p q => exact inv.opApp q hl
+  | setV p q => exact inv.opSetV sl hl
+  | app p q => exact inv.opApp sl hl
   | appLit p l =>
     rcases inv.appendAt (src := l.toV) hl (fun id hid => by rw [Lit.toV_scalar] at hid; cases hid)
       (fun id c _ hc => by rw [Lit.toV_scalar] at hc; cases hc)
@@ -3532,7 +3576,7 @@ theorem Inv.opBody {σ : State} {t : Loc} (op : Op) (inv : Inv σ []) (hl : Vali
     · exact Or.inr (inv.removeAtV hl)
   | removeKey p k => exact Or.inr (inv.removeKeyV hl)
   | clear p => exact Or.inr (inv.clearV hl)
-  | extend p q => exact inv.opExtend q hl
+  | extend p q => exact inv.opExtend sl hl
   | clone k q => exact Or.inl ⟨_, rfl, ba⟩
   | copy k q => exact Or.inl ⟨_, rfl, ba⟩
   | drop k => exact Or.inl ⟨_, rfl, ba⟩
@@ -3562,7 +3606,7 @@ theorem Inv.rootOp {σ : State} (op : Op) (inv : Inv σ []) : BodyOK σ (Var.roo
     · rw [h1]; subst he; exact Or.inl ⟨_, rfl, np⟩
     · rw [h1]
       rcases cloneOK (travFuel σ.heap) σ src [] inv (Held.live inv hsrc) with h2 | ⟨h', c, h2, inv2, _⟩
-      · simp only [h2]; exact Or.inl ⟨_, rfl, Or.inr (Or.inr (Or.inr (Or.inr rfl)))⟩
+      · simp only [h2]; exact Or.inl ⟨_, rfl, Or.inr (Or.inr (Or.inr (Or.inr (Or.inl rfl))))⟩
       · simp only [h2]
         exact Inv.replaceRoot inv2 rfl
   | copy k q =>
@@ -3628,17 +3672,28 @@ theorem Inv.applyOp {σ : State} (op : Op) (inv : Inv σ []) :
     simp only []
     by_cases hroot : p.root < σ.slots.length
     · simp only [hroot, if_true]
-      obtain ⟨σ1, r, h1, inv1, hs1, hr⟩ := Inv.resolveMut (T := []) p.steps σ (.slot p.root) inv hroot
-      rw [h1]
-      rcases hr with ⟨e, rfl, he⟩ | ⟨t, rfl, hl⟩
-      · refine ⟨inv1, hs1, ?_⟩
-        rcases he with he | he <;> subst he
-        · exact Or.inl rfl
-        · exact Or.inr (Or.inr (Or.inr (Or.inl rfl)))
-      · simp only []
-        rcases inv1.opBody op hl with ⟨e, h2, he⟩ | ⟨σ2, h2, inv2, hs2⟩
-        · rw [h2]; exact ⟨inv1, hs1, he⟩
-        · rw [h2]; exact ⟨inv2, by rw [hs2, hs1], trivial⟩
+      have hsl : (∃ e, srcLoc σ op = .error e ∧ e = .nopath) ∨ ∃ sl, srcLoc σ op = .ok sl := by
+        unfold srcLoc
+        cases srcOf op with
+        | none => exact Or.inr ⟨none, rfl⟩
+        | some q => exact inv.cloc q
+      rcases hsl with ⟨e, h0, he⟩ | ⟨sl, h0⟩
+      · rw [h0]; subst he
+        exact ⟨inv, rfl, Or.inr (Or.inr (Or.inl rfl))⟩
+      · rw [h0]
+        simp only []
+        obtain ⟨σ1, r, h1, inv1, hs1, hr⟩ := Inv.resolveMut (T := []) sl p.steps σ (.slot p.root) inv hroot
+        rw [h1]
+        rcases hr with ⟨e, rfl, he⟩ | ⟨t, rfl, hl⟩
+        · refine ⟨inv1, hs1, ?_⟩
+          rcases he with he | he | he <;> subst he
+          · exact Or.inl rfl
+          · exact Or.inr (Or.inr (Or.inr (Or.inl rfl)))
+          · exact srcMovedR
+        · simp only []
+          rcases inv1.opBody sl op hl with ⟨e, h2, he⟩ | ⟨σ2, h2, inv2, hs2⟩
+          · rw [h2]; exact ⟨inv1, hs1, he⟩
+          · rw [h2]; exact ⟨inv2, by rw [hs2, hs1], trivial⟩
     · simp only [hroot, if_false]
       refine ⟨inv, ?_, Or.inr (Or.inr (Or.inr (Or.inl rfl)))⟩
       trivial
@@ -3839,25 +3894,6 @@ theorem content_sub {h h' : Heap} {R : List V} (sub : SubItems h h') (wf : WF h'
 
 
 /-! ## assign_spec -/
-
-theorem readLoc_held {σ : State} {l : Loc} {v : V} (hr : readLoc σ l = .ok v) : v ∈ σ.slots ∨ v ∈ hvals σ.heap := by
-  cases l with
-  | slot k =>
-    simp only [readLoc] at hr
-    cases hk : σ.slots[k]? with
-    | none => simp [hk] at hr
-    | some x => simp only [hk, Except.ok.injEq] at hr; subst hr; exact Or.inl (List.mem_of_getElem? hk)
-  | item P i =>
-    simp only [readLoc] at hr
-    cases hb : getB σ.heap P with
-    | error e => simp [hb] at hr
-    | ok b =>
-      simp only [hb] at hr
-      cases hi : b.items[i]? with
-      | none => simp [hi] at hr
-      | some kv =>
-        simp only [hi, Except.ok.injEq] at hr; subst hr
-        exact Or.inr (mem_hvals_of_getB hb (List.mem_map_of_mem (List.mem_of_getElem? hi)))
 
 /-- reading a location after a heap change that keeps (when it is still alive) the block of the location -/
 theorem readLoc_sub {σ : State} {h' : Heap} (sub : SubItems σ.heap h') {l : Loc} {v v' : V}
